@@ -39,7 +39,9 @@ class C18:
         return [self.mk(b"http://127.0.0.1:@PORT@/announce", b"nm", 1234, pid, "corpus"),
                 self.mk(b"http://127.0.0.1:@PORT@/a/b?key=abc&x=1", b"n2", 7, pid, "corpus"),
                 self.mk(b"http://127.0.0.1:@PORT@", b"n3", 0, pid, "corpus"),
-                self.mk(b"http://127.0.0.1:@PORT@/a?", b"n4", 2 ** 63 - 1, pid, "corpus")]
+                self.mk(b"http://127.0.0.1:@PORT@/a?", b"n4", 2 ** 63 - 1, pid, "corpus"),
+                self.mk(b"http://127.0.0.1:@PORT@/t/key/", b"n5", 5, pid, "corpus"),
+                self.mk(b"http://127.0.0.1:@PORT@/a?realm=/private/", b"n6", 5, pid, "corpus")]
 
     def gen(self, rng, tier):
         n = {"quick": 160, "thorough": 3000, "search": 600}.get(tier, 160)
@@ -51,13 +53,16 @@ class C18:
                     return w
         for i in range(n):
             path = b"".join(b"/" + word() for _ in range(rng.choice([0, 1, 1, 2, 3])))
+            if rng.random() < 0.25:
+                path += b"/"                      # announce paths ending in '/', e.g. /t/<passkey>/
             r = rng.random()
             if r < 0.45:
                 q = b""
             elif r < 0.5:
                 q = b"?"
             else:
-                q = b"?" + b"&".join(word() + b"=" + word() for _ in range(rng.choice([1, 1, 2, 3])))
+                val = lambda: word() + (rng.choice([b"", b"", b"/", b"/x", b"~", b":8", b"@h"]))
+                q = b"?" + b"&".join(word() + b"=" + val() for _ in range(rng.choice([1, 1, 2, 3])))
             tmpl = b"http://127.0.0.1:@PORT@" + path + q
             name = bytes(rng.choice(ALNUM) for _ in range(8))
             length = rng.choice([0, 1, 7, 16384, 2 ** 31, 2 ** 32, 2 ** 63 - 1, rng.randrange(2 ** 40)])
